@@ -8,7 +8,7 @@ digits) — `local_eq`; hence the two tokenisations of a whole template agree (`
 `sync_bwd`).
 Part 2: running the directives against the argument: tuple mode and mapping mode.
 -/
-namespace Pya
+namespace Pya.C17
 
 /-! ## Part 1 — lexical agreement -/
 def wpNum : WP → Nat
@@ -516,11 +516,9 @@ theorem sync_fwd : ∀ (cs : List Char) (k : Nat),
 
 set_option linter.unusedSimpArgs false
 
-def isHexConv (c : Char) : Bool := c == 'o' || c == 'x' || c == 'X'
-
 theorem elem_A (b : Bool) (s : CSpec) (e : Elem) (hc : isConvCh s.conv = true)
-    (hp : s.conv ≠ '%') (hb : b = true ∨ s.conv ≠ 'b') (hacc : s.accept b e = [])
-    (hhex : ¬ (isHexConv s.conv = true ∧ e = .sc .float)) : cpyConvOk b s.conv e = true := by
+    (hp : s.conv ≠ '%') (hb : b = true ∨ s.conv ≠ 'b') (hacc : s.accept b e = []) :
+    cpyConvOk b s.conv e = true := by
   unfold CSpec.accept at hacc
   generalize s.conv = c at *
   simp [isConvCh] at hc
@@ -528,7 +526,7 @@ theorem elem_A (b : Bool) (s : CSpec) (e : Elem) (hc : isConvCh s.conv = true)
   all_goals (
     rcases e with (v | bb | _ | n | n | _ | _ | _) | _ | _ <;>
     simp_all (config := {decide := true}) [cpyConvOk, isNumericConv, Elem.numericOk, Elem.intOk, Elem.strOk, Elem.bytesOk,
-      isRealLike, isIntLike, isHexConv])
+      Elem.indexOk, isRealLike, isIntLike, isHexConv])
   all_goals (cases b <;> simp_all <;> omega)
 
 theorem cpyConvOk_isConv (b : Bool) (c : Char) (e : Elem) (h : cpyConvOk b c e = true) :
@@ -549,7 +547,7 @@ theorem elem_B (b : Bool) (s : CSpec) (e : Elem) (h : cpyConvOk b s.conv e = tru
   all_goals (
     rcases e with (v | bb | _ | n | n | _ | _ | _) | _ | _ <;>
     simp_all (config := {decide := true}) [cpyConvOk, isNumericConv, Elem.numericOk, Elem.intOk, Elem.strOk, Elem.bytesOk,
-      isRealLike, isIntLike])
+      Elem.indexOk, isRealLike, isIntLike, isHexConv])
   all_goals (cases b <;> simp_all <;> omega)
 
 /-! ### The argument state as a list -/
@@ -892,9 +890,7 @@ theorem tuple_ok (b : Bool) (ss : List CSpec) (a : Arg)
     (hkeys : ∀ s ∈ ss, s.key = none) (hno : NoPctOpts ss)
     (hconv : ∀ s ∈ ss, isConvCh s.conv = true) (hb : ∀ s ∈ ss, s.conv = 'b' → b = true)
     (hhuge : ∀ s ∈ ss, dirHuge (dirOf s) = false)
-    (hacc : acceptTuple b ss a = [])
-    (hhex : a.allArgs.length = (serialOf ss).length → ∀ p ∈ (serialOf ss).zip a.allArgs,
-      ∀ s, p.1 = Serial.cs s → ¬ (isHexConv s.conv = true ∧ p.2 = .sc .float)) :
+    (hacc : acceptTuple b ss a = []) :
     cpyRun b (dirsOf ss) a = true := by
   unfold acceptTuple at hacc
   simp only [] at hacc
@@ -932,7 +928,7 @@ theorem tuple_ok (b : Bool) (ss : List CSpec) (a : Arg)
           simp only [Serial.accept] at hq1
           simp only [Prod.map, toCSer, cserOk, id]
           have hm := cs_mem_serialOf ss s (List.of_mem_zip hq).1
-          refine elem_A b s q2 (hconv s hm.1) hm.2 ?_ hq1 (hhex hlen (Serial.cs s, q2) hq s rfl)
+          refine elem_A b s q2 (hconv s hm.1) hm.2 ?_ hq1
           by_cases hbb : s.conv = 'b'
           · left; exact hb s hm.1 hbb
           · right; exact hbb)
@@ -1015,9 +1011,7 @@ theorem mapping_ok (ss : List CSpec) (kvs : List (Key × Elem))
     (hno : NoPctOpts ss) (hconv : ∀ s ∈ ss, isConvCh s.conv = true) (hb : ∀ s ∈ ss, s.conv ≠ 'b')
     (hhuge : ∀ s ∈ ss, dirHuge (dirOf s) = false)
     (hstr : ∀ kv ∈ kvs, ∃ k, kv.1 = Key.str k)
-    (hacc : acceptMapping false ss (.dict kvs) = ([], false))
-    (hhex : ∀ kv ∈ kvs, ∀ k, kv.1 = Key.str k → ∀ s ∈ specsForKey ss k,
-      ¬ (isHexConv s.conv = true ∧ kv.2 = .sc .float)) :
+    (hacc : acceptMapping false ss (.dict kvs) = []) :
     cpyRun false (dirsOf ss) (.dict kvs) = true := by
   have hpct : ∀ s ∈ ss, s.conv ≠ '%' := by
     intro s hs hc
@@ -1031,15 +1025,10 @@ theorem mapping_ok (ss : List CSpec) (kvs : List (Key × Elem))
     simp [hk, Key.strVal]
   have hreal : ss.filter (fun s => s.conv != '%') = ss := by
     rw [List.filter_eq_self]; intro s hs; simpa using hpct s hs
-  have hnone : noneKeyLeft ss = false := by
-    simp only [noneKeyLeft, hreal, List.any_eq_false]; intro s hs
-    have := (hkeyed s hs).1
-    cases hk : s.key <;> simp_all
-  simp only [acceptMapping, hnl, hnone, Bool.false_or, Bool.not_false, Bool.and_true] at hacc
+  simp only [acceptMapping, hnl, Bool.not_false, Bool.and_true] at hacc
   split at hacc
   · simp at hacc
   · rename_i hleft
-    simp only [Prod.mk.injEq, and_true] at hacc
     simp only [strKeyLeft, hreal, Bool.not_eq_true, List.any_eq_false] at hleft
     -- every step succeeds
     have hstep : ∀ d ∈ dirsOf ss, ∀ st, ∃ v, cpyStep false (.dict kvs) st d = some (.one v true) := by
@@ -1060,8 +1049,7 @@ theorem mapping_ok (ss : List CSpec) (kvs : List (Key × Elem))
           have := hacc (Key.str k, v) hmem
           simp only [Key.strVal, List.flatMap_eq_nil_iff] at this
           exact this s hsk
-        refine elem_A false s v (hconv s hs) (hpct s hs) (Or.inr (hb s hs)) hperkey ?_
-        exact hhex (Key.str k, v) hmem k rfl s hsk
+        exact elem_A false s v (hconv s hs) (hpct s hs) (Or.inr (hb s hs)) hperkey
     have hrun : ∀ (ds : List Dir), (∀ d ∈ ds, d ∈ dirsOf ss) → ∀ st, st.isOne = true →
         ∃ st', cpyRunAux false (.dict kvs) st ds = some st' ∧ st'.isOne = true := by
       intro ds
@@ -1091,15 +1079,15 @@ theorem lint_facts (b : Bool) (s : CSpec) (h : s.lint b = []) :
       have : (s.conv == '%') = false := by rw [hc]; decide
       simp [this, hc, hb] at h
 
-/-- **Soundness core for `%`**: if pyanalyze reports nothing and the input is outside the five
+/-- **Soundness core for `%`**: if pyanalyze reports nothing and the input is outside the four
 "missed error" classes, CPython formats successfully. -/
 theorem percent_silent_ok (b : Bool) (t : List Char) (a : Arg)
-    (herr : (pyaPercent b t a).errs = []) (hcr : (pyaPercent b t a).crash = false)
-    (h1 : D17_hexFloat t a = false) (h2 : D17_parenKey t = false)
+    (herr : (pyaPercent b t a).errs = [])
+    (h2 : D17_parenKey t = false)
     (h3 : D17_nonStrKey b t a = false) (h4 : D17_bytesMapping b t a = false)
     (h5 : D17_hugeWidthPrec t = false) :
     cpyPercent b t a = .ok (if b then .bytes else .str) := by
-  simp only [pyaPercent] at herr hcr
+  simp only [pyaPercent] at herr
   rw [List.append_eq_nil_iff] at herr
   obtain ⟨hlint, hacc⟩ := herr
   simp only [lintAll, List.append_eq_nil_iff, List.flatMap_eq_nil_iff, List.replicate_eq_nil_iff] at hlint
@@ -1114,13 +1102,12 @@ theorem percent_silent_ok (b : Bool) (t : List Char) (a : Arg)
     fun s hs => lint_facts b s (hspecs s hs).1
   have hno : NoPctOpts ss := fun s hs => (hl s hs).1
   have hrun : cpyRun b (dirsOf ss) a = true := by
-    unfold acceptAll at hacc hcr
+    unfold acceptAll at hacc
     split at hacc
     · -- no specifiers
       rename_i hemp
       have : ss = [] := by simpa using hemp
       subst this
-      simp only at hacc
       split at hacc
       · cases hacc
       · rename_i hne
@@ -1129,11 +1116,9 @@ theorem percent_silent_ok (b : Bool) (t : List Char) (a : Arg)
         · subst ha; rfl
         · have := hne ha; subst this; rfl
     · rename_i hemp
-      simp only [hemp, Bool.false_eq_true, if_false] at hcr
       split at hacc
       · -- mapping mode
         rename_i hnm
-        simp only [hnm, if_true] at hcr
         have hkeyed : ∀ s ∈ ss, s.key.isSome = true ∧ s.width ≠ .star ∧ s.prec ≠ .star := by
           intro s hs
           have := (hspecs s hs).2
@@ -1158,18 +1143,10 @@ theorem percent_silent_ok (b : Bool) (t : List Char) (a : Arg)
             | str k => exact ⟨k, rfl⟩
             | bytes _ => simp [hk, Key.strVal] at this
             | other => simp [hk, Key.strVal] at this
-          refine mapping_ok ss kvs hkeyed hno (fun s hs => (hQ s hs).2) ?_ (fun s hs => (hQ s hs).1) hstr ?_ ?_
-          · intro s hs hc
-            have := (hl s hs).2 hc
-            cases this
-          · exact Prod.ext hacc hcr
-          · intro kv hkv k hk s hs
-            simp only [D17_hexFloat, hss, checkedPairs, hnm, if_true, List.any_eq_false] at h1
-            have := h1 (s, kv.2) (by
-              simp only [List.mem_flatMap]
-              refine ⟨kv, hkv, ?_⟩
-              simp [hk, Key.strVal, hs])
-            simpa [isHexConv] using this
+          refine mapping_ok ss kvs hkeyed hno (fun s hs => (hQ s hs).2) ?_ (fun s hs => (hQ s hs).1) hstr hacc
+          intro s hs hc
+          have := (hl s hs).2 hc
+          cases this
       · -- tuple mode
         rename_i hnm
         have hkeys : ∀ s ∈ ss, s.key = none := by
@@ -1178,15 +1155,8 @@ theorem percent_silent_ok (b : Bool) (t : List Char) (a : Arg)
           simp only [needsMapping, List.any_eq_false] at this
           have := this s hs
           cases hk : s.key <;> simp_all
-        refine tuple_ok b ss a hkeys hno (fun s hs => (hQ s hs).2) (fun s hs => (hl s hs).2)
-          (fun s hs => (hQ s hs).1) hacc ?_
-        intro hlen p hp s hps
-        simp only [D17_hexFloat, hss, checkedPairs, hnm, Bool.false_eq_true, if_false, hlen, beq_self_eq_true, if_true,
-          List.any_eq_false] at h1
-        have := h1 (s, p.2) (by
-          simp only [List.mem_filterMap]
-          exact ⟨p, hp, by obtain ⟨p1, p2⟩ := p; simp only at hps; subst hps; rfl⟩)
-        simpa [isHexConv] using this
+        exact tuple_ok b ss a hkeys hno (fun s hs => (hQ s hs).2) (fun s hs => (hl s hs).2)
+          (fun s hs => (hQ s hs).1) hacc
   simp only [cpyPercent, htok, hrun, if_true]
 
 /-! ### Completeness direction: CPython succeeds ⇒ only lint -/
@@ -1382,10 +1352,9 @@ theorem mapping_lint (b : Bool) (ss : List CSpec) (a : Arg)
     (hnm : needsMapping ss = true) (hwf : a.wf = true)
     (hrun : cpyRun b (dirsOf ss) a = true)
     (hbm : ¬ (b = true ∧ ∃ kvs, a = .dict kvs))
-    (hcrash : (acceptMapping b ss a).2 = false)
     (hcr : ∀ p ∈ checkedPairs ss a,
         ¬ (b = false ∧ p.1.conv = 'c' ∧ ∃ v, p.2 = .sc (.int v) ∧ 256 ≤ v ∧ v < 0x110000)) :
-    (acceptMapping b ss a).1 = [] := by
+    acceptMapping b ss a = [] := by
   unfold cpyRun at hrun
   simp only [] at hrun
   cases hr : cpyRunAux b (cpyInit b a).2 (cpyInit b a).1 (dirsOf ss) with
@@ -1457,13 +1426,7 @@ theorem mapping_lint (b : Bool) (ss : List CSpec) (a : Arg)
           have := mem_strKeys kvs k v (seen_of_lookup kvs k v hl)
           simp only [List.contains_eq_mem, decide_eq_true_eq] at this
           simp [this]
-      simp only [acceptMapping, hperkey, hstrleft, Bool.or_false] at hcrash ⊢
-      split
-      · rename_i hcond
-        simp only [hcond, if_true] at hcrash
-        simp only [Bool.and_eq_true] at hcond
-        simp [hcond.1] at hcrash
-      · rfl
+      simp [acceptMapping, hperkey, hstrleft]
 
 theorem run_ok_steps (b : Bool) (ds : List Dir) (a : Arg) (h : cpyRun b ds a = true) :
     ∀ d ∈ ds, ∃ st1 st2, cpyStep b (cpyInit b a).2 st1 d = some st2 := by
@@ -1488,16 +1451,14 @@ theorem cRange_of_D (b : Bool) (ss : List CSpec) (a : Arg)
   simp [hc, h1, h2] at this
 
 /-- **Completeness core for `%`**: if CPython formats successfully and the input is outside the
-seven "false report" classes, everything pyanalyze says is one of the documented lint rules, and
-it does not crash. -/
+six "false report" classes, everything pyanalyze says is one of the documented lint rules. -/
 theorem percent_ok_lint (b : Bool) (t : List Char) (a : Arg) (ty : RTy) (hwf : a.wf = true)
     (hcpy : cpyPercent b t a = .ok ty)
     (d1 : D17_cRangeStr b t a = false) (d2 : D17_dotNoDigits t = false)
     (d3 : D17_emptyKey t = false) (d4 : D17_parenKey t = false)
-    (d5 : D17_mixedKeyCrash b t a = false) (d6 : D17_pctOnlyMapping b t a = false)
+    (d6 : D17_pctOnlyMapping b t a = false)
     (d7 : D17_bytesMapping b t a = false) :
-    (∀ e ∈ (pyaPercent b t a).errs, e.lintOnly = true) ∧ (pyaPercent b t a).crash = false := by
-  refine ⟨?_, d5⟩
+    ∀ e ∈ (pyaPercent b t a).errs, e.lintOnly = true := by
   unfold cpyPercent at hcpy
   cases htok : cpyTok t with
   | none => simp [htok] at hcpy
@@ -1515,7 +1476,6 @@ theorem percent_ok_lint (b : Bool) (t : List Char) (a : Arg) (ty : RTy) (hwf : a
       change hasBad (scan t) = false at hbad
       change ds = dirsOf (specsOf (scan t)) at hds
       subst hds
-      simp only [D17_mixedKeyCrash, pyaPercent] at d5
       simp only [D17_cRangeStr] at d1
       simp only [D17_pctOnlyMapping] at d6
       simp only [D17_bytesMapping] at d7
@@ -1557,20 +1517,18 @@ theorem percent_ok_lint (b : Bool) (t : List Char) (a : Arg) (ty : RTy) (hwf : a
         · simp only [List.mem_singleton] at he; subst he; rfl
         · cases he
       · -- accept messages
-        unfold acceptAll at he d5
+        unfold acceptAll at he
         split at he
         · split at he
           · simp only [List.mem_singleton] at he; subst he; rfl
           · cases he
         · exfalso
           rename_i hemp
-          simp only [hemp, Bool.false_eq_true, if_false] at d5
           split at he
           · rename_i hnm
-            simp only [hnm, if_true] at d5
             have := mapping_lint b ss a hnm hwf hrun (by
                 rintro ⟨hb, kvs, rfl⟩
-                simp [hb, hnm] at d7) d5 (cRange_of_D b ss a d1)
+                simp [hb, hnm] at d7) (cRange_of_D b ss a d1)
             rw [this] at he; cases he
           · rename_i hnm
             have hkeys : ∀ s ∈ ss, s.key = none := by
@@ -1589,7 +1547,6 @@ theorem percent_ok_lint (b : Bool) (t : List Char) (a : Arg) (ty : RTy) (hwf : a
                 simp only [checkedPairs, hnm, Bool.false_eq_true, if_false, hlen, beq_self_eq_true, if_true,
                   List.mem_filterMap]
                 exact ⟨p, hp, by obtain ⟨p1, p2⟩ := p; simp only at hps; subst hps; rfl⟩)
-            simp only at he
             rw [this] at he; cases he
     · cases hcpy
 
@@ -2099,4 +2056,4 @@ theorem format_plain_iff (t : List Char) (nargs : Nat) (kws : List (List Char))
         have h1 := hall m (by simp [hm])
         have h2 := accMsgs_nonlint nargs kws (fs.map (·.name)) 0 m (by rw [hm]; simp)
         rw [h1] at h2; cases h2
-end Pya
+end Pya.C17
